@@ -68,7 +68,28 @@ CLASS_NAMES = ["Foo", "Bar", "Baz", "Qux", "Quux", "Corge", "Grault", "Garply"]
 def build(recipe, env=None):
     """Build fresh statham objects for a recipe (two builds share nothing)."""
     env = {} if env is None else env
+    _assert_unique_ids(recipe)
     return _build(copy.deepcopy(recipe), env)
+
+
+def _assert_unique_ids(recipe):
+    """A recipe that defines one id twice is a generator bug (two objects for one shared node)."""
+    seen = set()
+
+    def walk(node):
+        if isinstance(node, list):
+            for x in node:
+                walk(x)
+        elif isinstance(node, dict):
+            if "kind" in node and "id" in node:
+                if node["id"] in seen:
+                    raise ValueError(f"harness bug: recipe defines node {node['id']} twice")
+                seen.add(node["id"])
+            for k, v in node.items():
+                if k != "kw":
+                    walk(v)
+
+    walk(recipe)
 
 
 def _sub(value, env):
@@ -103,9 +124,10 @@ def _build(node, env):
         return env[node["ref"]]
     kind = node["kind"]
     kw = dict(node.get("kw", {}))
+    # build order (shared nodes must be defined before they are referenced): base, sub, props, members
+    base = _build(node["base"], env) if (kind == "Object" and node.get("base")) else Object
     sub = {k: _sub(v, env) for k, v in node.get("sub", {}).items()}
     if kind == "Object":
-        base = _build(node["base"], env) if node.get("base") else Object
         classdict = ObjectClassDict()
         for name, prop in _props(node, env).items():
             classdict[name] = prop
@@ -353,12 +375,13 @@ def _node(draw, cfg, depth, gen, kinds=None):
             # a union of same-typed alternatives next to a differently constructing member
             k1, k2 = draw(st.sampled_from([("Integer", "Number"), ("Number", "Integer"), ("String", "Element"),
                                            ("Integer", "Element"), ("Array", "Element")]))
+            built_before = set(index(gen.done))
             union = {"id": gen.new_id(), "kind": draw(st.sampled_from(["AnyOf", "OneOf"])), "kw": {}}
             union["elements"] = [draw(_node(cfg, depth - 1, gen, kinds=[k1])) for _ in range(draw(st.integers(1, 2)))]
             other = draw(_node(cfg, depth - 1, gen, kinds=[k2]))
             node["elements"] = [union, other] if draw(st.booleans()) else [other, union]
             # generation order must equal build order (list order) for shared nodes: no refs across the two
-            node["elements"] = repair_refs(node["elements"], index(gen.done + [union, other]))
+            node["elements"] = repair_refs(node["elements"], index(gen.done + [union, other]), built_before)
         elif kind == "AllOf" and n > 1:
             # satisfiable conjunctions: one arbitrary member, the others mostly untyped
             # constraint elements (the shape the parser produces for sibling keywords)
@@ -406,6 +429,10 @@ def _node(draw, cfg, depth, gen, kinds=None):
                          if draw(st.booleans()) else draw(sub_node()))
                     for kk in keys
                 }
+        if isinstance(subs.get("items"), list) and "additionalItems" not in subs and draw(st.integers(0, 2)) > 0:
+            # tuple items are only interesting together with additionalItems
+            subs["additionalItems"] = (draw(_node(cfg, 0, gen, kinds=["String", "Integer", "Number", "Boolean", "Null"]))
+                                       if draw(st.integers(0, 2)) > 0 else draw(st.booleans()))
         if subs:
             node["sub"] = subs
         want_props = kind == "Object" or (kind == "Element" and draw(st.integers(0, 2)) == 0)
@@ -508,9 +535,12 @@ def twin(recipe, gen):
         return None
 
 
-def repair_refs(new, old_index):
-    """After a subtree was removed: re-define dangling refs at their first use (build order)."""
-    defined = set()
+def repair_refs(new, old_index, defined=None):
+    """After a subtree was removed: re-define dangling refs at their first use (build order).
+
+    ``defined``: ids already built before ``new`` (refs to them are left alone).
+    """
+    defined = set(defined or ())
 
     def visit(node):
         if isinstance(node, list):
@@ -527,6 +557,8 @@ def repair_refs(new, old_index):
             for k in list(node):
                 node[k] = visit(node[k])
             return node
+        if node.get("id") in defined:
+            return {"ref": node["id"]}  # already (re-)defined at an earlier use: keep one definition
         if node.get("base"):
             node["base"] = visit(node["base"])
         for k in list(node.get("sub", {})):
